@@ -235,6 +235,9 @@ pub fn run(args: &Args) -> Option<i32> {
             }
             let (outcome, well_formed, path): (std::result::Result<Option<bool>, String>, bool, &str);
             let mut negative = false;
+            // order class of the triple actually submitted (the chainlink branch may negate / inflate a field)
+            let mut oc = order_class(&BigInt::from(min), &BigInt::from(price), &BigInt::from(max));
+            let mut submitted = json!({"ts": ts, "min": min.to_string(), "price": price.to_string(), "max": max.to_string()});
             if direct {
                 let call = DirectCall {
                     decimals: rng.range(0, 20) as u8,
@@ -308,7 +311,8 @@ pub fn run(args: &Args) -> Option<i32> {
                 };
                 path = "chainlink";
                 m.count("op_chainlink_update");
-                let _ = (&b, &p, &a);
+                oc = order_class(&b, &p, &a);
+                submitted = json!({"ts": ts, "bid": b.to_string(), "price": p.to_string(), "ask": a.to_string(), "expires_at": exp, "well_formed": well_formed});
             }
             let Some((post, post_bytes)) = read_feed(&w, &feed) else {
                 m.inconclusive("harness: feed account unreadable after update");
@@ -317,7 +321,6 @@ pub fn run(args: &Args) -> Option<i32> {
             m.eval();
             let changed = post_bytes != pre_bytes;
             let tsc = ts_class(ts, pre.ts, now, excess);
-            let oc = order_class(&BigInt::from(min), &BigInt::from(price), &BigInt::from(max));
             let out_class = match &outcome {
                 Ok(Some(true)) => "ok_updated",
                 Ok(Some(false)) => "ok_skipped",
@@ -334,7 +337,7 @@ pub fn run(args: &Args) -> Option<i32> {
                 json!({
                     "shard": shard, "step": step, "path": path, "idempotent": idempotent,
                     "clock": {"unix_timestamp": now, "slot": slot}, "max_future_excess_config": excess,
-                    "submitted": {"ts": ts, "min_or_bid": min.to_string(), "price": price.to_string(), "max_or_ask": max.to_string(), "negated_field": negative},
+                    "submitted": submitted,
                     "before": format!("{pre:?}"), "after": format!("{post:?}"), "outcome": format!("{outcome:?}"),
                 })
             };
